@@ -11,6 +11,9 @@ Monitor shape: post-condition on two real executions joined by the wire bytes
       holds an instance of that class again (not the intermediate dict), at every nesting level
   R4  cls._fromX(obj._asX()) == obj        (dataclass equality, as the statement says "equal")
   R5  _fromjson accepts the same text as str and as bytes
+  R6  decode twice: after every mutable container reachable from the first decoded copy was edited (lists appended to,
+      dict keys added, fields of non-frozen nested objects rebound), decoding the SAME bytes again gives an object equal
+      to the ORIGINAL that shares no list / dict / non-frozen data object with the first copy (no state kept between decodes)
 
 The family of registered data-object classes is defined in this module the way the
 repository's own tests define theirs (@registerify @dataclass on RegDom / IceRegDom,
@@ -41,7 +44,8 @@ from hio.help.doming import (RegDom, IceRegDom, TymeDom, IceTymeDom, registerify
 
 ID = "C28"
 LEVEL = "exploration"
-RULE = ("case = (class from a family of 11 registered data-object classes: flat/typed/nested 1-2 levels/list+dict fields, mutable and "
+RULE = ("case = (class from a family of 19 registered data-object classes: flat/typed/nested 1-2 levels/list+dict fields, field-less marker classes "
+        "nested 1-2 levels and next to non-empty ones, frozen classes holding containers and non-frozen objects; mutable and "
         "frozen, Reg and Tyme flavours) x field values. Part 1 enumerates, for every class and every field, every value of a 60-entry "
         "boundary table (ints at 2^7..2^64 edges, float extremes, unicode planes/controls/escapes, empty and nested containers) with "
         "the other fields at defaults; part 2 draws random values (depth <= 4) for all fields. Each case is run through json, cbor and "
@@ -58,8 +62,10 @@ LEVEL_NOTE = "trusted: the json / cbor2 / msgpack libraries themselves (a value 
 NSHARDS = {"quick": 16, "thorough": 16}
 TIMEOUT_S = {"quick": 200, "thorough": 1200}
 REQUIRE = {"roundtrips_judged": 20000, "nested_fields_checked": 5000, "roundtrips:json": 6000, "roundtrips:cbor": 6000,
-           "roundtrips:mgpk": 6000, "non_ascii_strings": 1000, "frozen_class_roundtrips": 3000}
-EXHAUSTIVE = {"quick": "every (class, field, boundary value) of the 11-class family x 60-value table, in json, cbor and mgpk",
+           "roundtrips:mgpk": 6000, "non_ascii_strings": 1000, "frozen_class_roundtrips": 3000,
+           "fieldless_nested_checked": 3000, "second_decodes_judged": 20000, "second_decodes_after_mutation": 8000,
+           "frozen_second_decodes_after_mutation": 3000, "containers_mutated_before_second_decode": 20000}
+EXHAUSTIVE = {"quick": "every (class, field, boundary value) of the 19-class family x 60-value table, in json, cbor and mgpk",
               "thorough": "every (class, field, boundary value) and every (class, field pair, value pair) over a 14-value sub-table"}
 
 
@@ -177,9 +183,82 @@ class VfIceTyme(IceTymeDom):
     ice: VfIceFlat = None
 
 
-FAMILY = [VfFlat, VfTyped, VfInner, VfMid, VfOuter, VfTyme, VfTymeOuter, VfIceFlat, VfIceMid, VfIceOuter, VfIceTyme]
+# field-less data objects (markers / unit values): their dict form is {} - and still has to come back as an instance
+@registerify
+@dataclass
+class VfUnit(RegDom):
+    def __hash__(self):
+        return hash(self.__class__.__name__)
+
+
+@registerify
+@dataclass(frozen=True)
+class VfIceUnit(IceRegDom):
+    pass
+
+
+@registerify
+@dataclass
+class VfWithUnit(RegDom):
+    unit: VfUnit = None
+    inner: VfInner = None
+    tag: Any = None
+    unit2: VfUnit = None
+
+    def __hash__(self):
+        return hash(self.__class__.__name__)
+
+
+@registerify
+@dataclass
+class VfUnitOuter(RegDom):
+    holder: VfWithUnit = None          # field-less object two levels down
+    unit: VfUnit = None
+    items: list = field(default_factory=list)
+
+    def __hash__(self):
+        return hash(self.__class__.__name__)
+
+
+@registerify
+@dataclass(frozen=True)
+class VfIceWithUnit(IceRegDom):
+    unit: VfIceUnit = None
+    ice: VfIceFlat = None
+    tag: Any = None
+
+
+@registerify
+@dataclass(frozen=True)
+class VfIceUnitOuter(IceRegDom):
+    holder: VfIceWithUnit = None
+    unit: VfIceUnit = None
+    table: dict = field(default_factory=dict)
+
+
+# frozen objects that hold mutable things: containers and a NON-frozen nested data object
+@registerify
+@dataclass(frozen=True)
+class VfIceHolder(IceRegDom):
+    item: VfInner = None
+    tags: list = field(default_factory=list)
+    attrs: dict = field(default_factory=dict)
+    unit: VfUnit = None
+
+
+@namify
+@registerify
+@dataclass(frozen=True)
+class VfIceTymeHolder(IceTymeDom):
+    item: VfWithUnit = None
+    tags: list = field(default_factory=list)
+
+
+FAMILY = [VfFlat, VfTyped, VfInner, VfMid, VfOuter, VfTyme, VfTymeOuter, VfIceFlat, VfIceMid, VfIceOuter, VfIceTyme,
+          VfUnit, VfIceUnit, VfWithUnit, VfUnitOuter, VfIceWithUnit, VfIceUnitOuter, VfIceHolder, VfIceTymeHolder]
 BYNAME = {c.__name__: c for c in FAMILY}
-FROZEN = {VfIceFlat, VfIceMid, VfIceOuter, VfIceTyme}
+FROZEN = {VfIceFlat, VfIceMid, VfIceOuter, VfIceTyme, VfIceUnit, VfIceWithUnit, VfIceUnitOuter, VfIceHolder, VfIceTymeHolder}
+FIELDLESS = {VfUnit, VfIceUnit}
 
 
 def dom_fields(cls):
@@ -337,6 +416,84 @@ def put(spec, path, val):
 FORMATS = [("json", "_asjson", "_fromjson"), ("cbor", "_ascbor", "_fromcbor"), ("mgpk", "_asmgpk", "_frommgpk")]
 
 
+def is_frozen(o):
+    return type(o).__dataclass_params__.frozen
+
+
+def mutables(o, acc=None, seen=None):
+    """every mutable container reachable from o: lists, dicts, non-frozen data objects (frozen ones are walked through)"""
+    acc = [] if acc is None else acc
+    seen = set() if seen is None else seen
+    if id(o) in seen:
+        return acc
+    if isinstance(o, list):
+        seen.add(id(o)); acc.append(o)
+        for x in o:
+            mutables(x, acc, seen)
+    elif isinstance(o, dict):
+        seen.add(id(o)); acc.append(o)
+        for x in o.values():
+            mutables(x, acc, seen)
+    elif is_dataclass(o) and not isinstance(o, type):
+        seen.add(id(o))
+        if not is_frozen(o):
+            acc.append(o)
+        for f in fields(o):
+            mutables(getattr(o, f.name, None), acc, seen)
+    return acc
+
+
+def deep_mutate(o):
+    """what a consumer may do to ITS decoded copy: append to every list, add a key to every dict, rebind every field of
+    every non-frozen data object reachable from it.  Returns the number of containers changed."""
+    found = mutables(o)
+    for m in found:
+        if isinstance(m, list):
+            m.append("vf-mutated")
+        elif isinstance(m, dict):
+            m["vf-mutated"] = True
+    for m in found:                      # rebinding last: the walk above used the original links
+        if is_dataclass(m):
+            for f in fields(m):
+                try:
+                    setattr(m, f.name, "vf-rebound")
+                except Exception:
+                    pass
+    return len(found)
+
+
+def decode_twice(cls, obj, raw, first, fromx, fmt, ctx):
+    """R6: the decoded copy belongs to the caller. After the first copy was edited in every mutable place, decoding the
+    SAME bytes again still gives an object equal to the original, sharing no mutable container with the first copy."""
+    before = {id(m) for m in mutables(first)}
+    keep = mutables(first)               # keep them alive so ids cannot be recycled
+    n = deep_mutate(first)
+    try:
+        second = getattr(cls, fromx)(raw)
+    except Exception as ex:
+        ctx.violation(f"second-decode-raises:{fmt}:{type(ex).__name__}", f"{cls.__name__}.{fromx} raised {ex!r} on the second decode of {raw[:200]!r}")
+        return
+    ctx.count("second_decodes_judged")
+    ctx.count("second_decodes:" + fmt)
+    ctx.count("containers_mutated_before_second_decode", n)
+    if n:
+        ctx.count("second_decodes_after_mutation")
+        if cls in FROZEN:
+            ctx.count("frozen_second_decodes_after_mutation")
+    shared = [m for m in mutables(second) if id(m) in before]
+    if second is first or shared:
+        ctx.violation(f"decodes-share-mutable-state:{fmt}",
+                      f"{cls.__name__}.{fromx}: second decode of the same bytes shares "
+                      f"{'the whole instance' if second is first else str(len(shared)) + ' mutable container(s)'} with the first "
+                      f"decoded copy; wire {raw[:200]!r}")
+        return
+    if type(second) is not cls or not (second == obj):
+        ctx.violation(f"second-decode-not-equal:{fmt}",
+                      f"{cls.__name__}: after the first decoded copy was edited, decoding the same bytes gives {second!r:.300}, "
+                      f"original {obj!r:.300}")
+    del keep
+
+
 LIBRT = {"json": lambda d: json.loads(json.dumps(d)),
          "cbor": lambda d: cbor2.loads(cbor2.dumps(d)),
          "mgpk": lambda d: msgpack.loads(msgpack.dumps(d))}
@@ -365,6 +522,8 @@ def check_nested(cls, obj, back, ctx, fmt, trail=()):
         got = getattr(back, name, None)
         if isinstance(orig, ncls):
             ctx.count("nested_fields_checked")
+            if ncls in FIELDLESS:
+                ctx.count("fieldless_nested_checked")
             if not isinstance(got, ncls):
                 ctx.violation(f"nested-field-not-restored:{fmt}",
                               f"{cls.__name__}.{'.'.join(trail + (name,))} annotated {ncls.__name__} came back as "
@@ -432,12 +591,15 @@ def judge(cls, obj, ctx):
             ctx.violation(f"not-equal:{fmt}", f"{cls.__name__}: sent {obj!r:.400} got {back!r:.400} wire {raw[:200]!r}")
             continue
         ctx.count("strict_types_preserved:" + fmt if strict_equal(obj, back) else "scalar_type_or_sign_changed:" + fmt)
+        decode_twice(cls, obj, raw, back, fromx, fmt, ctx)
         if fmt == "json":
             try:
                 back2 = cls._fromjson(raw.decode("utf-8"))
                 ctx.count("json_str_input_checked")
                 if type(back2) is not cls or not (back2 == obj):
                     ctx.violation("not-equal:json-str-input", f"{cls.__name__}._fromjson(str) gave {back2!r:.300} for {obj!r:.300}")
+                else:
+                    decode_twice(cls, obj, raw.decode("utf-8"), back2, "_fromjson", "json-str-input", ctx)
             except Exception as ex:
                 ctx.violation(f"deserialize-raises:json-str-input:{type(ex).__name__}", f"{cls.__name__}._fromjson(str) raised {ex!r}")
     return interesting
